@@ -9,6 +9,8 @@ From PowHsm Require Import Gen.Src.
 From PowHsm Require Import Proofs.SrcEquivBase.
 From PowHsm Require Import Proofs.SrcEquivProto.
 From PowHsm Require Import Proofs.SrcLiftC02.
+From PowHsm Require Import Gen.SrcM.
+From PowHsm Require Import Proofs.SrcEquivSignProtoM.
 Open Scope N_scope.
 
 (* a request the gate rejects is answered {errorcode: code} and the world (script, trace, flag) is untouched: no exchange with the device at all *)
@@ -331,5 +333,21 @@ Theorem C02_source_is_hex_string_of_length :
                     | _ => false
                     end).
 Proof. exact (@src_is_hex_string_of_length_ok). Qed.
+
+(* TIE BY TRANSLATION (device monad): the second-stage classification of sign requests (auth mandatory for a transaction, message kind, transaction decodable) as written in _sign of the source is the model's, for every request the gate lets through *)
+Theorem C02_source_sign_handler_is_model :
+  forall (kind : dongle_kind) (init : pm pv) (cm : string -> pv -> list pv -> pr pv)
+           (fuel : nat) (self : pv) (req : obj) (x : str) (els : list N) 
+           (w : world),
+         SrcEquivProtoM.init_ok kind init ->
+         tx_oracles_ok cm ->
+         SrcEquivSignM.oracles_ok cm (path_obj els) (path_to_binary els) ->
+         jget (s "keyId") req = Some (JStr x) ->
+         bip32_path x = Some els ->
+         ValLemmasSignProtoM.message_absent_or_object req ->
+         (S (Datatypes.length (script (snd (ensure_connection kind w)))) <= fuel)%nat ->
+         srcm_HSM2ProtocolLedger___sign fuel cm init self (SrcEquivProtoM.request_with_path req els)
+           w = SrcEquivDongleM.mres SrcEquivProtoM.rtuple_pv (op_sign_v5 kind req w).
+Proof. exact (@srcm_sign_handler_ok). Qed.
 
 Example C02_nonvacuous : True. Proof. exact I. Qed. (* 24 concrete classifications closed by vm_compute in Proofs/C02.v *)
